@@ -218,42 +218,58 @@ structure SaveOpts where
   all : Bool      -- -a
   quote : Bool    -- -quote
 
-/-- what one regular file contributes: `(comment bytes, files)`. `none` = Go panic (NeedsQuote). -/
-def saveFile (o : SaveOpts) (rel : List Bytes) (data : Bytes) : Option (Bytes × List File) :=
-  if Gen.Fsx.skipsInvalidUTF8 && !utf8Valid data then some ([], []) else
+/-- one archived file: its path below the argument directory (components), the stored data, and
+whether it went through `Quote` (then a comment line `unquote <path>` is written as well). -/
+structure Item where
+  rel : List Bytes
+  data : Bytes
+  quoted : Bool
+deriving DecidableEq, Repr
+
+/-- what the Walk callback does with one regular file. `none` = Go panic (inside NeedsQuote). -/
+def saveFile (o : SaveOpts) (rel : List Bytes) (data : Bytes) : Option (List Item) :=
+  if Gen.Fsx.skipsInvalidUTF8 && !utf8Valid data then some [] else
   let data := if Gen.Fsx.addsFinalNewline && !data.isEmpty && data.getLast? ≠ some NL then data ++ [NL] else data
-  let filename := joinSep rel
   match needsQuote data with
   | none => none
-  | some false => some ([], [⟨filename, data⟩])
+  | some false => some [⟨rel, data, false⟩]
   | some true =>
-    if !Gen.Fsx.quoteBranch then some ([], [⟨filename, data⟩]) else
-    if !o.quote then some ([], []) else
+    if !Gen.Fsx.quoteBranch then some [⟨rel, data, false⟩] else
+    if !o.quote then some [] else
     match quote data with
-    | .error _ => some ([], [])
-    | .ok q => some (Gen.Fsx.unquotePrefix ++ filename ++ [NL], [⟨filename, q⟩])
+    | .error _ => some []
+    | .ok q => some [⟨rel, q, true⟩]
 
 mutual
-def saveTree (o : SaveOpts) (rel : List Bytes) : Tree → Option (Bytes × List File)
+/-- the Walk callback on the entry at relative path `rel`, and Walk's descent into directories. -/
+def saveTree (o : SaveOpts) (rel : List Bytes) : Tree → Option (List Item)
   | .file d => saveFile o rel d
   | .dir es => saveForest o rel es
-  | .other => if Gen.Fsx.skipsNonRegular then some ([], []) else none
-def saveForest (o : SaveOpts) (rel : List Bytes) : Forest → Option (Bytes × List File)
-  | .nil => some ([], [])
+  | .other => if Gen.Fsx.skipsNonRegular then some [] else none
+def saveForest (o : SaveOpts) (rel : List Bytes) : Forest → Option (List Item)
+  | .nil => some []
   | .cons name t rest =>
     if Gen.Fsx.dotSkip name o.all && (Gen.Fsx.dotSkipsDir || !t.isDir) then saveForest o rel rest
     else
       match saveTree o (rel ++ [name]) t with
       | none => none
-      | some (c1, f1) =>
+      | some i1 =>
         match saveForest o rel rest with
         | none => none
-        | some (c2, f2) => some (c1 ++ c2, f1 ++ f2)
+        | some i2 => some (i1 ++ i2)
 end
 
-/-- the archive txtar-c builds for the contents of its argument directory. -/
-def saveDir (o : SaveOpts) (t : Forest) : Option Archive :=
-  (saveForest o [] t).map fun r => ⟨r.1, r.2⟩
+/-- `"unquote "+filename+"\n"` -/
+def unquoteLine (i : Item) : Bytes := Gen.Fsx.unquotePrefix ++ joinSep i.rel ++ [NL]
+
+def itemFile (i : Item) : File := ⟨joinSep i.rel, i.data⟩
+
+def archiveOf (items : List Item) : Archive :=
+  ⟨(items.filter (·.quoted)).flatMap unquoteLine, items.map itemFile⟩
+
+/-- the archive txtar-c builds for the contents of its argument directory
+(`filename` = path below the directory joined by '/'; comment lines and files are appended in walk order). -/
+def saveDir (o : SaveOpts) (t : Forest) : Option Archive := (saveForest o [] t).map archiveOf
 
 /-- txtar-c's standard output. -/
 def saveDirBytes (o : SaveOpts) (t : Forest) : Option Bytes := (saveDir o t).map format
